@@ -7,6 +7,8 @@ mod c01;
 mod c03;
 mod c04;
 mod c07;
+mod c10;
+mod c11;
 mod c15;
 mod c16;
 mod c17;
@@ -54,7 +56,7 @@ fn main() {
     id: id.clone(), tier, seed, verif_dir: verif_dir.clone(), start: Instant::now(), config,
     findings: Findings::load(&verif_dir), budget_s,
   };
-  let self_check = std::panic::catch_unwind(|| refm::self_check());
+  let self_check = std::panic::catch_unwind(|| { refm::self_check(); refm::r3_self_check(); });
   if self_check.is_err() {
     eprintln!("[hpxmc] MACHINERY ERROR: reference-model self check failed");
     std::process::exit(2);
@@ -74,6 +76,8 @@ fn main() {
         "C06" => cone::replay(case, true, &ctx.findings),
         "C07" => c07::replay(case, c07::Mode::Moc),
         "C08" => c07::replay(case, c07::Mode::Bmoc),
+        "C10" => c10::replay(case),
+        "C11" => c11::replay(case, &ctx.findings),
         "C15" => c15::replay(case),
         "C16" => c16::replay(case, &ctx.findings),
         "C17" => c17::replay(case),
@@ -108,6 +112,8 @@ fn main() {
     "C06" => cone::run(&ctx, true),
     "C07" => c07::run(&ctx, c07::Mode::Moc),
     "C08" => c07::run(&ctx, c07::Mode::Bmoc),
+    "C10" => c10::run(&ctx),
+    "C11" => c11::run(&ctx),
     "C15" => c15::run(&ctx),
     "C16" => c16::run(&ctx),
     "C17" => c17::run(&ctx),
